@@ -10,7 +10,7 @@ tmp=$(mktemp -d); cp -r $src/* $tmp/
 cd $wt && git checkout -q -- . && git clean -fdq -e out
 mv $wt/out $tmp/out_aside
 pkg=$(grep -m1 '^package ' $tmp/demo_test.go | awk '{print $2}')
-case $pkg in ucfg) dir=.;; *) dir=${pkg%_test};; esac
+case $pkg in ucfg|ucfg_test) dir=.;; *) dir=${pkg%_test};; esac
 res_suite_with=FAIL; res_demo_with=PASS; res_demo_without=FAIL
 git apply $tmp/patch.diff || { echo "patch does not apply"; mv $tmp/out_aside $wt/out; exit 2; }
 go build ./... && go test -vet=off -count=1 ./... >/dev/null 2>&1 && res_suite_with=PASS
